@@ -31,6 +31,8 @@ type Interp struct {
 	lastInstr   ssa.Instruction
 	skipUserInit map[string]bool
 	noIfConv    bool
+	bgCtx       *NativeObj
+	mainPkg     *ssa.Package
 }
 
 type deferred struct {
@@ -709,6 +711,14 @@ func (in *Interp) prepareCall(fr *frame, call *ssa.CallCommon) (fn Value, args [
 	} else {
 		recv := v.(Iface)
 		if recv.T == nil {
+			if nt, ok := call.Value.Type().(*types.Named); ok && nt.Obj().Pkg() != nil && in.noopPkgs[nt.Obj().Pkg().Path()] {
+				sig := call.Method.Type().(*types.Signature)
+				fn = &NativeFn{name: "noop", fn: func(in *Interp, a []Value) Value { return zeroResult(sig) }}
+				for _, arg := range call.Args {
+					args = append(args, fr.get(arg))
+				}
+				return
+			}
 			in.rtPanic("invalid memory address or nil pointer dereference (method call on nil interface)")
 		}
 		if no, ok := recv.V.(*NativeObj); ok {
